@@ -59,6 +59,10 @@ class NetCheck(check.Check):
         out["counters"]["fault_dma_or_kernel_stall_policies"] = desc["n_swarm"] + (8 if desc["extremes"] else 0)
         out["counters"]["probe"] = self.probes(res)
         layers = [L["op"] for L in desc["recipe"]["layers"]]
+        out["counters"]["op_kind"] = {k: 1 for k in set(layers)}  # compiled networks that contain the source operator
+        om = res.get("model")
+        if om is not None:
+            out["counters"]["probe"]["variable_state_tensors_on_npu"] = int(any(getattr(t, "is_variable", False) for t in om.tensors) and st["npu_ops"] > 0)
         for v in res["viol"]:
             v = dict(v)
             v["sig"] = dict(oracle=v.get("oracle"), kind=v.get("kind"))
